@@ -1,5 +1,137 @@
+import Agd.Model.Record
 import Agd.Driver.Util
-/-! Line-protocol driver for the C15 model (stub: not built yet). -/
+/-!
+Line-protocol driver for the C15 model.
+
+Strings travel as `x` followed by hex byte pairs (`x` alone is the empty string); `-` is "absent".
+
+* `esc S`                      → hex of `esc S`
+* `line RN <entry>`            → hex of `encodeLine entry RN`
+* `serve <req>`                → the effects of `serve req`
+* `fsinit`, `fsw RN <entry>`, `fsstep I C`, `fsfile`, `fsorder` → the concurrent file model
+
+`<entry>` is 21 tokens: ip reqKind reqList reqRule respKind respList respRule timeMs reqId prof dev
+cc rc name elapsedMs asn qtype rcode proto dnssec.
+-/
 namespace Agd.Driver.C15
-def main : IO Unit := Agd.Driver.loop (fun (s : Unit) _ => (s, "bad-op")) ()
+open Agd.Record Agd.Driver
+
+def hexVal (c : Char) : Nat :=
+  if '0' ≤ c ∧ c ≤ '9' then c.toNat - 48
+  else if 'a' ≤ c ∧ c ≤ 'f' then c.toNat - 87
+  else if 'A' ≤ c ∧ c ≤ 'F' then c.toNat - 55
+  else 0
+
+def unhexL : List Char → Str
+  | a :: b :: r => (hexVal a * 16 + hexVal b) :: unhexL r
+  | _ => []
+
+/-- `xHEX` → bytes. -/
+def str! (s : String) : Str := unhexL (s.toList.drop 1)
+
+def hexC (n : Nat) : Char := Char.ofNat (hexDigit n)
+
+def hexOf (s : Str) : String :=
+  String.ofList ('x' :: s.foldr (fun b acc => hexC (b / 16 % 16) :: hexC (b % 16) :: acc) [])
+
+def kind! : String → ResKind
+  | "allowed" => .allowed | "blocked" => .blocked | "modresp" => .modResp | "modreq" => .modReq
+  | _ => .none
+
+def showKind : ResKind → String
+  | .none => "none" | .allowed => "allowed" | .blocked => "blocked" | .modResp => "modresp"
+  | .modReq => "modreq"
+
+def parseEntry : List String → Option Entry
+  | [ip, rk, rl, rr, sk, sl, sr, t, rid, prof, dev, cc, rc, name, el, asn, qt, rcode, proto, sec] =>
+    some { ip := if ip == "-" then none else some (str! ip),
+           reqRes := ⟨kind! rk, str! rl, str! rr⟩, respRes := ⟨kind! sk, str! sl, str! sr⟩,
+           timeMs := int! t, reqId := str! rid, prof := str! prof, dev := str! dev, cc := str! cc,
+           rc := str! rc, name := str! name, elapsedMs := int! el, asn := nat! asn, qtype := nat! qt,
+           rcode := nat! rcode, proto := nat! proto, dnssec := bool! sec }
+  | _ => none
+
+def showEntry (e : Entry) : String :=
+  " ".intercalate
+    [match e.ip with | none => "-" | some a => hexOf a,
+     showKind e.reqRes.kind, hexOf e.reqRes.list, hexOf e.reqRes.rule,
+     showKind e.respRes.kind, hexOf e.respRes.list, hexOf e.respRes.rule,
+     toString e.timeMs, hexOf e.reqId, hexOf e.prof, hexOf e.dev, hexOf e.cc, hexOf e.rc, hexOf e.name,
+     toString e.elapsedMs, toString e.asn, toString e.qtype, toString e.rcode, toString e.proto,
+     showB e.dnssec]
+
+def ipk! : String → IPKind
+  | "addr" => .addr | "unspec" => .unspec | _ => .none
+
+def showIPK : IPKind → String
+  | .none => "none" | .unspec => "unspec" | .addr => "addr"
+
+def resp! (rcode ad ip : String) : RespData := ⟨nat! rcode, bool! ad, ipk! ip⟩
+
+def showResp (r : RespData) : String := s!"{r.rcode},{showB r.ad},{showIPK r.ip}"
+
+def dev! (kind pid qlog iplog dev : String) : DevRes :=
+  match kind with
+  | "ok" => .ok ⟨str! pid, bool! qlog, bool! iplog⟩ (str! dev)
+  | "authfail" => .authFail
+  | "unknown" => .unknownDedicated
+  | "error" => .error
+  | _ => .anon
+
+def parseReq : List String → Option Req
+  | port0 :: dk :: pid :: qlog :: iplog :: dev :: gbi :: gbh :: pb :: rl :: special :: debug :: adw ::
+      ctxErr :: upErr :: writeErr :: rk :: rlist :: rrule :: sk :: slist :: srule :: blockErr ::
+      name :: qt :: proto :: rip :: rid :: start :: loc :: lctry :: lasn :: orc :: oad :: oip ::
+      brc :: bad :: bip :: mrc :: mad :: mip :: geo :: [] =>
+    some { port0 := bool! port0, dev := dev! dk pid qlog iplog dev, globBlockIP := bool! gbi,
+           globBlockHost := bool! gbh, profBlock := bool! pb, rlDrop := bool! rl, special := bool! special,
+           debug := bool! debug, adWanted := bool! adw, ctxErr := bool! ctxErr, upErr := bool! upErr,
+           writeErr := bool! writeErr,
+           reqRes := ⟨kind! rk, str! rlist, str! rrule⟩, respRes := ⟨kind! sk, str! slist, str! srule⟩,
+           blockErr := bool! blockErr, name := str! name, qtype := nat! qt, proto := nat! proto,
+           remoteIP := str! rip, reqId := str! rid, startMs := int! start, elapsedMs := 0,
+           loc := if bool! loc then some (str! lctry, nat! lasn) else none,
+           orig := resp! orc oad oip, blockedResp := resp! brc bad bip, modResp := resp! mrc mad mip,
+           geoCtry := str! geo }
+  | _ => none
+
+def showEffects (e : Effects) : String :=
+  let r := match e.resp with | none => "-" | some r => showResp r
+  let rs := match e.ruleStat with | none => "-" | some _ => "1"
+  let b := match e.bill with
+    | none => "-"
+    | some b => s!"{hexOf b.dev},{hexOf b.ctry},{b.asn},{b.proto}"
+  let l := match e.log with | none => "-" | some en => showEntry en
+  s!"resp={r} rs={rs} bill={b} log={l}"
+
+structure S where
+  jobs : List (Entry × Nat) := []
+  fs : FS := {}
+
+def jobsOf (l : List (Entry × Nat)) : Jobs := fun i => l[i]?
+
+def step (s : S) : List String → S × String
+  | ["esc", x] => (s, hexOf (esc (str! x)))
+  | "line" :: rn :: rest =>
+    (match parseEntry rest with
+     | some e => (s, hexOf (encodeLine e (nat! rn)))
+     | none => (s, "bad-op"))
+  | "serve" :: rest =>
+    (match parseReq rest with
+     | some q => (s, showEffects (serve q))
+     | none => (s, "bad-op"))
+  | ["fsinit"] => ({}, "ok")
+  | "fsw" :: rn :: rest =>
+    (match parseEntry rest with
+     | some e => ({ s with jobs := s.jobs ++ [(e, nat! rn)] }, "ok")
+     | none => (s, "bad-op"))
+  | ["fsstep", i, c] =>
+    let fs' := s.fs.step (jobsOf s.jobs) (nat! i) (if c == "-" then none else some (nat! c))
+    ({ s with fs := fs' }, s!"{fs'.pc (nat! i)} {fs'.hold (nat! i)}")
+  | ["fsfile"] => (s, hexOf s.fs.file)
+  | ["fsorder"] => (s, " ".intercalate (s.fs.order.map toString))
+  | _ => (s, "bad-op")
+
+def main : IO Unit := loop step {}
+
 end Agd.Driver.C15
